@@ -9,6 +9,7 @@ func runR_C01(c *Ctx) {
 	rGenerating(c, ps...)
 	rHelperArity(c, ps...)
 	rUnusedTypeString(c, ps...)
+	rDepValidation(c, ps...)
 	rR4(c, ps...)
 }
 
@@ -16,6 +17,7 @@ func runR_C09(c *Ctx) {
 	ps := c.Repo.Plugins
 	sweepHealth(c, ps...)
 	rPanics(c, ps...)
+	rDepValidation(c, ps...)
 	rR1(c, ps...)
 	rUnsupportedKinds(c, "equal", "compare", "hash", "deepcopy", "gostring")
 	rR4(c, ps...)
